@@ -10,6 +10,7 @@
 #include "JSON.hpp"
 #include "Template.hpp"
 #include "BigInt.hpp"
+#include "HList.hpp"
 using namespace Qentem;
 
 static char *exact(const char *s, size_t n) {
@@ -250,6 +251,67 @@ static Case cases[] = {
          if (ss.Length() != 3 || memcmp(ss.First(), "ab{", 3) != 0)
              return printf("expected [ab{] (3 units), got %u units\n", ss.Length()), 1;
          return 0;
+     }},
+    // ---- C14 / C16 self-merge: the source is the object itself
+    {"harray_self_merge", [] {
+         HArray<String<char>, Value<char>> h;
+         h["a"] = 1; h["b"] = 2; h["c"] = 3;
+         const HArray<String<char>, Value<char>> &alias = h;
+         h += alias;   // Size()+Size() exceeds the capacity: the table is rebuilt while src_item still walks the old block
+         return (h.Size() == 3) ? 0 : (printf("expected 3 members, got %u\n", h.Size()), 1);
+     }},
+    {"hlist_self_merge", [] {
+         HList<String<char>> l;
+         l.Insert("a", 1); l.Insert("b", 1); l.Insert("c", 1);
+         const HList<String<char>> &alias = l;
+         l += alias;
+         return (l.Size() == 3) ? 0 : (printf("expected 3 keys, got %u\n", l.Size()), 1);
+     }},
+    // ---- C16: assigning a container from one of its own descendants
+    {"value_assign_from_child_copy", [] {
+         Value<char> v = JSON::Parse("{\"child\":{\"a\":[1,2,3],\"b\":\"a long enough string to live on the heap\"}}");
+         v = v["child"];
+         return (v.IsObject() && v.Size() == 2) ? 0 : (printf("expected the child object\n"), 1);
+     }},
+    {"value_assign_from_child_move", [] {
+         Value<char> v = JSON::Parse("[[1,2,3,\"a long enough string to live on the heap\"]]");
+         v = Memory::Move(v[0]);
+         return (v.IsArray() && v.Size() == 4) ? 0 : (printf("expected the child array\n"), 1);
+     }},
+    {"array_move_assign_from_child", [] {
+         Array<Array<int>> outer;   // not recursive: only shows the API; the recursive case is the tag cache
+         Array<Tags::TagBit> cache;
+         const char *t = "<if case=\"1\">{var:a}{var:b}</if>";
+         TemplateCore<char, Value<char>, StringStream<char>>::Parse(t, (SizeT)strlen(t), cache);
+         cache = Memory::Move(cache.First()->GetIfTag().Cases.First()->SubTags);
+         return (cache.Size() == 2) ? 0 : (printf("expected the two sub tags, got %u\n", cache.Size()), 1);
+     }},
+    {"array_append_own_element", [] {
+         Array<String<char>> a;
+         a += String<char>("a long enough string to live on the heap 1");
+         a += String<char>("a long enough string to live on the heap 2");   // Size() == Capacity() == 2
+         a += a.First()[0];
+         return (a.Size() == 3 && a.First()[2] == a.First()[0]) ? 0 : (printf("expected a copy of element 0\n"), 1);
+     }},
+    {"value_append_own_element", [] {
+         Value<char> v = JSON::Parse("[\"a long enough string to live on the heap\",2]");
+         v += v[0];
+         return (v.Size() == 3) ? 0 : (printf("expected 3 elements\n"), 1);
+     }},
+    {"value_append_own_member_to_object", [] {
+         Value<char> v = JSON::Parse("{\"k\":\"a long enough string to live on the heap\"}");
+         v += v["k"];   // a non-array becomes an array holding the appended value
+         return (v.IsArray() && v.Size() == 1 && v[0].IsString()) ? 0 : (printf("expected [string]\n"), 1);
+     }},
+    {"value_merge_own_child", [] {
+         Value<char> v = JSON::Parse("[[1,2,3,4,5,6,7,8,9],2]");
+         v.Merge(v[0]);
+         return (v.Size() == 11) ? 0 : (printf("expected 11 elements, got %u\n", v.Size()), 1);
+     }},
+    {"value_insert_own_member", [] {
+         Value<char> v = JSON::Parse("[{\"j\":\"a long enough string to live on the heap\"}]");
+         v.Insert("k", Memory::Move(v[0]));   // a non-object becomes an object holding the inserted value
+         return (v.IsObject() && v.Size() == 1) ? 0 : (printf("expected an object with one member\n"), 1);
      }},
 };
 
